@@ -37,7 +37,7 @@ BOUNDS = {
     "quick": {"vertices": 3, "pool_links": 2, "links_created_by_step": 1, "pre_state_list_len": 2, "list_capacity": 4,
               "ind_families": len(FAMILIES), "bmc_depth": 2, "call_depth": 60},
     "thorough": {"vertices": 3, "pool_links": 2, "links_created_by_step": 1, "pre_state_list_len": 3, "list_capacity": 5,
-                 "ind_families": len(FAMILIES), "bmc_depth": 3, "call_depth": 60},
+                 "ind_families": len(FAMILIES), "bmc_depth": "2 (all families), 3 (six association / end mutators)", "call_depth": 60},
 }
 TIME_BUDGET = {"quick": 420, "thorough": 1200}
 STUBS = ["uuid.uuid4 -> fresh distinct integer"]
@@ -58,9 +58,11 @@ def configs(tier):
     for pool in pools:
         for fam in FAMILIES:
             out.append({"mode": "ind", "family": fam, "pool": pool, "K": K, "cap": cap})
-    depth = 2 if tier == "quick" else 3
     for pool in ([["DE", "UE"], ["TE", "GL"]] if tier == "quick" else [["DE", "UE"], ["TE", "GL"], ["DE", "DE"]]):
-        out.append({"mode": "bmc", "pool": pool, "depth": depth})
+        out.append({"mode": "bmc", "pool": pool, "depth": 2})
+    if tier != "quick":
+        # depth 3 over the six association / end mutators (the constructors and builders multiply the tree)
+        out.append({"mode": "bmc", "pool": ["DE", "UE"], "depth": 3, "families": FAMILIES[:6]})
     return out
 
 
@@ -140,8 +142,9 @@ def scenario(B, p):
         B.prove("Inv01 after " + p["family"], B.and_(inv01(B, verts2, links2), links_typed(B, verts2, links2)))
         return
     # ---- BMC: k steps from the constructed pool
+    fams = p.get("families", FAMILIES)
     for step in range(p["depth"]):
-        fam = FAMILIES[B.choice(f"s{step}.op", len(FAMILIES))]
+        fam = fams[B.choice(f"s{step}.op", len(fams))]
         outcome, r = do_step(B, fam, verts, links, f"s{step}.")
         if fam == "vertex_ctor":
             verts = verts + B.adopt(r, f"newv{step}")
